@@ -201,7 +201,7 @@ def potential_body(c):
     else:
         lines.append("Definition loc_ok : bool := true.")
     lines += ["Definition impl : list CQ := %s." % clist(c["impl"]),
-              "Eval vm_compute in (cmp_list %s model impl ++ (if loc_ok then [] else [777777%%nat]))."
+              "Eval vm_compute in (cmp_list %s model impl ++ (if loc_ok then [] else [7777%%nat]))."
               % tol_of(c["scale"]),
               "Eval vm_compute in (count_nonzero model).", ""]
     return POT_HEADER + "\n".join(lines)
@@ -224,8 +224,8 @@ def judge_cases(ctx, cases, outs, prefix, what, per_case_evals):
         ctx.corr["distinct_nontrivial"] += nz[0]
         if fails[0]:
             ctx.corr["disagreements"] += len(fails[0])
-            extra = " (777777 = the localised space does not inherit support / normal multipliers / numbering)" \
-                if 777777 in fails[0] else ""
+            extra = " (7777 = the localised space does not inherit support / normal multipliers / numbering)" \
+                if 7777 in fails[0] else ""
             ctx.problem("correspondence", "%s: bempp-cl differs from the model on %s at output positions %s%s"
                         % (what, c["name"], fails[0][:8], extra))
 
